@@ -88,7 +88,10 @@ def handler (wrong : Bool) : Handler Unit where
             match impl.packet.bind connectOf with
             | none => some ("c19-admitted-invalid", "Ok(_) without a CONNECT")
             | some c =>
-              if !AdmissionSpec.mayProceed cfg bs c then
+              if !AdmissionSpec.wireVersionOk cfg bs then
+                some ("c19-admitted-invalid",
+                  s!"the CONNECT on the wire is not of the listener's protocol version: name/level={(AdmissionSpec.wireNameLevel bs).map (fun p => (hex p.1, p.2))} listener={cfg.version.level}")
+              else if !AdmissionSpec.mayProceed cfg bs c then
                 some ("c19-admitted-invalid",
                   s!"connect={AdmissionSpec.startsWithConnect bs} level={c.level} keepalive={c.keepAlive} emptyid={c.clientId.isEmpty} clean={c.clean} credentials={AdmissionSpec.credentialsAccepted a c.login c.clientId}")
               else none
